@@ -50,6 +50,11 @@ func runC08(p *Prog, r *Report) {
 	c08R8(p, r)
 	c08R9(p, r)
 	c08R10(p, r)
+	const r11 = "C08-R11"
+	r.Rule(r11, "lock balance in packages cred and ss2022: Lock/RLock only with the mutex not held by the function, Unlock/RUnlock only with the matching lock held, released at every exit (or by a deferred call) — the error returns of the credential operations included")
+	nb := lockBalance(p, r, r11, "cred", nil) + lockBalance(p, r, r11, "ss2022", nil)
+	r.Count("lock_operations_checked", nb)
+	r.Floor(r11, 20)
 	// R5: the store file follows every acknowledged change (shared with C20-R2)
 	credFlushRule(p, r, "C08-R5")
 }
